@@ -324,7 +324,28 @@ func freshCopyOf(v, orig ssa.Value) bool {
 		}
 		return true
 	case *ssa.Phi:
-		for _, e := range x.Edges {
+		for k, e := range x.Edges {
+			if c, isC := e.(*ssa.Const); isC && c.Value == nil && orig != nil {
+				// a nil merged into the copy: only on an edge where the source is nil
+				// (otherwise the copy loses a value the source has)
+				pred := x.Block().Preds[k]
+				fs := factsAt(pred)
+				if ifi, isIf := pred.Instrs[len(pred.Instrs)-1].(*ssa.If); isIf && pred.Succs[0] != pred.Succs[1] {
+					fs = append(fs, edgeFact{Cond: ifi.Cond, Truth: pred.Succs[0] == x.Block(), From: pred})
+				}
+				nilSrc := false
+				for _, ef := range expandFacts(fs) {
+					if bo, isB := ef.Cond.(*ssa.BinOp); isB && (bo.Op == token.EQL || bo.Op == token.NEQ) {
+						if ((bo.X == orig && isNilConst(bo.Y)) || (bo.Y == orig && isNilConst(bo.X))) && (bo.Op == token.EQL) == ef.Truth {
+							nilSrc = true
+						}
+					}
+				}
+				if !nilSrc {
+					return false
+				}
+				continue
+			}
 			if !freshCopyOf(e, orig) {
 				return false
 			}
@@ -808,16 +829,21 @@ func wrapperCopyValue(val ssa.Value, recv *ssa.Parameter, nameArg ssa.Value, kt 
 // assertion of w.Get(...).
 func freshCopyFromGet(v ssa.Value, recv *ssa.Parameter) bool {
 	ok := true
-	var walk func(v ssa.Value, depth int)
-	walk = func(v ssa.Value, depth int) {
+	var walk func(v ssa.Value, depth int, facts []edgeFact)
+	walk = func(v ssa.Value, depth int, facts []edgeFact) {
 		if depth > 5 {
 			ok = false
 			return
 		}
 		switch x := v.(type) {
 		case *ssa.Phi:
-			for _, e := range x.Edges {
-				walk(e, depth+1)
+			for k, e := range x.Edges {
+				pred := x.Block().Preds[k]
+				fs := factsAt(pred)
+				if ifi, isIf := pred.Instrs[len(pred.Instrs)-1].(*ssa.If); isIf && pred.Succs[0] != pred.Succs[1] {
+					fs = append(fs, edgeFact{Cond: ifi.Cond, Truth: pred.Succs[0] == x.Block(), From: pred})
+				}
+				walk(e, depth+1, fs)
 			}
 		case *ssa.MakeSlice:
 			if !filledByCopy(x) {
@@ -826,18 +852,21 @@ func freshCopyFromGet(v ssa.Value, recv *ssa.Parameter) bool {
 		case *ssa.Alloc:
 			for _, ref := range referrers(x) {
 				if st, isS := ref.(*ssa.Store); isS && st.Addr == ssa.Value(x) {
-					walk(st.Val, depth+1)
+					walk(st.Val, depth+1, factsAt(st.Block()))
 				}
 			}
 		case *ssa.TypeAssert:
-			// the original value: allowed only on a path where it is nil (guarded copy)
-			nilOnly := false
-			for _, ref := range referrers(x) {
-				if bo, isB := ref.(*ssa.BinOp); isB && (bo.Op == token.NEQ || bo.Op == token.EQL) {
-					nilOnly = true
+			// the original value: allowed only where it is known to be nil (the
+			// nil branch of a guarded copy)
+			nilHere := false
+			for _, ef := range expandFacts(facts) {
+				if bo, isB := ef.Cond.(*ssa.BinOp); isB && (bo.Op == token.NEQ || bo.Op == token.EQL) {
+					if ((bo.X == ssa.Value(x) && isNilConst(bo.Y)) || (bo.Y == ssa.Value(x) && isNilConst(bo.X))) && (bo.Op == token.EQL) == ef.Truth {
+						nilHere = true
+					}
 				}
 			}
-			if !nilOnly {
+			if !nilHere {
 				ok = false
 			}
 		case *ssa.Const:
@@ -850,7 +879,7 @@ func freshCopyFromGet(v ssa.Value, recv *ssa.Parameter) bool {
 			ok = false
 		}
 	}
-	walk(v, 0)
+	walk(v, 0, nil)
 	return ok
 }
 
